@@ -53,8 +53,8 @@ def check(tier, seed):
         for mu in mus:
             y = R.expand_mask(p, rho, mu)
             cases.append({'line': f"expand_mask {s} {rho.hex()} {mu}", 'tag': 'expand_mask at counter boundaries', 'want': "|".join(",".join(str(c) for c in poly) for poly in y), 'model': mu in (0, 256 - 1, 256)})
-        for t in range(3):
-            ct = bytes(rng.randrange(256) for _ in range(p['lam'] // 4))
+        for t in range(5):
+            ct = bytes(rng.randrange(256) for _ in range(p['lam'] // 4)) if t < 3 else bytes([0x00 if t == 3 else 0xFF]) * (p['lam'] // 4)
             c = R.sample_in_ball(p, ct)
             cases.append({'line': f"sample_in_ball 0 {p['tau']} {ct.hex()}", 'tag': 'sample_in_ball', 'want': ",".join(str(x) for x in c), 'model': t == 0})
     core.run_and_judge(rep, cases, model_every=0)
